@@ -8,6 +8,7 @@
 -/
 import PgProofs.KeyPath
 import PgProofs.KeyPathSet
+import PgProofs.Hier
 namespace Pg.C10
 
 /-! ## 1. parse ∘ format -/
@@ -302,5 +303,48 @@ theorem C10_set_dollar_assertion :
 example : wf (.node [(.s ['a'], .node [(dollar, .mark), (.i 0, .node [(dollar, .mark)])]), (dollar, .mark)]) = true := by
   decide
 example : dollarFree [.s ['a'], .i 0, .s ['x', '.', 'y']] = true := by decide
+
+/-! ## 4. Traversal and lookup on plain nested values
+
+`visitsPre v []` is the visit log of `utils.traverse` / `pg.traverse` (path, node) in calling order;
+`query` is `KeyPath.query` (with fix C10-F33: dicts are looked up by key whatever the key type);
+`subAt` is the position-based specification of "the node at path r". -/
+
+open Val
+
+/-- Every visit reports a path that, looked up from the root, returns the visited node —
+for every nested value (any depth, str and int dict keys, lists). -/
+theorem C10_traverse_lookup (v : Val) (q : Path) (x : Val) (hn : nodupVal v = true)
+    (h : (q, x) ∈ visitsPre v []) : query v q = .ok x := by
+  obtain ⟨r, hq, hx⟩ := visitsPre_query v [] q x hn h
+  simp only [List.nil_append] at hq
+  subst hq
+  exact hx
+
+/-- Every node of the value is visited, with its own path. -/
+theorem C10_traverse_complete (v : Val) (r : Path) (x : Val) (h : subAt v r = some x) :
+    (r, x) ∈ visitsPre v [] := by
+  have := visitsPre_complete v [] r x h
+  simpa using this
+
+/-- The model's `flatten` is, by definition, the dictionary from printed paths (`path_str` with
+`preserve_complex_keys = not flatten_complex_keys`) to the leaf-like nodes of the post-order walk. -/
+theorem C10_flatten_spec (fck : Bool) (v : Val) (h : isLeafLike v = false) :
+    flatten fck v = .dict (((visitsPost v []).filter (fun pv => !pv.1.isEmpty && isLeafLike pv.2)).foldl
+      (fun acc pv => Assoc.set acc (.s (pathStrPc (!fck) pv.1)) pv.2) []) :=
+  flatten_spec fck v h
+
+/-! Non-vacuity and instances (the inverse law `canonicalize (flatten v) = v` is *not* proved in
+general — see the report; these are evaluated instances of the model, the law itself is checked on
+the real code by the oracle on every generated canonical value). -/
+example : nodupVal (.dict [(.s ['a'], .list [.leaf (.int 1), .dict [(.i 5, .leaf .none)]]), (.s ['0'], .leaf (.str ['x']))]) = true := by
+  decide
+example :
+    let v : Val := .dict [(.s ['a'], .list [.leaf (.int 1), .dict [(.i 5, .leaf .none)]]), (.s ['0'], .leaf (.str ['x']))]
+    (match canonicalize asciiClass (flatten true v) with
+     | .ok w => w == v
+     | .error _ => false) = true := by
+  decide
+example : query (.dict [(.i 5, .leaf (.str ['x']))]) [.i 5] = .ok (.leaf (.str ['x'])) := rfl
 
 end Pg.C10
